@@ -10,12 +10,12 @@ PROP = "C01"
 def plans(tier):
     s = vlib.seed()
     if tier == "quick":
-        return [dict(gens="star,hole,collapse,rect", variants="base", n=6000, W=6, nmax=14, bias=0.6, seed=s),
+        return [dict(gens="star,hole,collapse,rect,spiral", variants="base", n=6000, W=6, nmax=14, bias=0.6, seed=s),
                 dict(gens="star,hole", variants="base", n=5000, W=4, nmax=20, bias=0.85, seed=s + 1),
                 dict(gens="star", variants="base", n=3000, W=3, nmax=24, bias=0.95, seed=s + 2)]
     return [dict(gens="star,hole,collapse,rect", variants="base", n=70000, W=6, nmax=16, bias=0.6, seed=s),
             dict(gens="star,hole", variants="base", n=30000, W=4, nmax=24, bias=0.85, seed=s + 1),
-            dict(gens="star,hole,collapse", variants="base", n=20000, W=8, nmax=24, bias=0.5, seed=s + 2),
+            dict(gens="star,hole,collapse,spiral", variants="base", n=20000, W=8, nmax=24, bias=0.5, seed=s + 2),
             dict(gens="star", variants="base", n=20000, W=3, nmax=28, bias=0.9, seed=s + 3)]
 
 
@@ -27,7 +27,7 @@ def real_plans(tier):
 
 def run(tier):
     return snapcheck.run_snap_property(
-        PROP, tier, "SnapTrace_C01.cfg", plans(tier), design=('snap', 'rounding'), real_plans=real_plans(tier), real_cfg="RealTrace_C01.cfg",
+        PROP, tier, "SnapTrace_C01.cfg", plans(tier), design=('snap', 'snapquad', 'rounding'), real_plans=real_plans(tier), real_cfg="RealTrace_C01.cfg",
         rule="random star-shaped / holed / collapse-prone lattice polygons (validity decided by the TLA+ predicate ValidPolygon), "
              "40-95 % of coordinates aligned to pixel borders or centres, 1-3 tile matrices per call, random flags, 5 synthetic grids "
              "at random placements; every pair of returned edges of every tile matrix tested for a proper crossing by TLC",
